@@ -230,9 +230,62 @@ structure MintOut where
   share : Nat
   paid : Nat                   -- `payload.Amount` after the fee share was taken off
   rewarded : Nat               -- key index of the authorizer whose stake pool got the share
+  sigs : List Sig              -- `payload.Signatures` after the cut to `numAuth`
   counted : List Sig           -- the unique signatures that were checked
   threshold : Int
 deriving Repr
+
+/-- stage 1 (mint.go:49-80): signatures present, authorizers exist, threshold, first length test, the cut
+`payload.Signatures[0:numAuth]`. Result: threshold and the (possibly cut) signature list. -/
+def mintSigs (s : ZSt) (p : MintIn) : Except MintErr (Int × List Sig) :=
+  if p.sigs.isEmpty then .error .noSigs
+  else if s.count = 0 then .error .noAuth
+  else match threshold s.cfg.percent s.count with
+    | none => .error .undefThreshold
+    | some thr =>
+      if (p.sigs.length : Int) < thr then .error .fewSigs
+      else .ok (thr, if (p.sigs.length : Int) > s.count then p.sigs.take s.count.toNat else p.sigs)
+
+/-- stage 2 (mint.go:84-130): receiving client, minimum amount, maximum fee, nonce not yet minted. -/
+def mintChecks (s : ZSt) (sender : Id) (p : MintIn) : Except MintErr Unit :=
+  if p.receiver ≠ sender then .error .receiver
+  else if p.amount < s.cfg.minMint then .error .minMint
+  else if p.amount < s.cfg.maxFee then .error .maxFee
+  else if p.nonce ∈ s.minted then .error .nonceExists
+  else .ok ()
+
+/-- stage 3 (mint.go:132-149): unique signatures, `verifySignatures`, second length test. -/
+def mintVerify (strict : Bool) (s : ZSt) (h : Fr) (thr : Int) (sigs : List Sig) : Except MintErr (List Sig) :=
+  let uniq := uniqueSigs sigs
+  if !verifySignatures strict s.auths h uniq then .error .verify
+  else if (uniq.length : Int) < thr then .error .notEnough
+  else .ok uniq
+
+structure Payout where
+  share : Nat
+  paid : Nat
+  rewarded : Nat
+  pools : List (Nat × APool)
+deriving Repr
+
+/-- stage 4 (mint.go:151-215): fee share, amount paid out, the rewarded authorizer and its stake pool. -/
+def mintPay (s : ZSt) (amount : Nat) (sigs : List Sig) (pick : Nat → Nat) : Except MintErr Payout :=
+  match Coin.distributeCoin s.cfg.maxFee (sigs.length : Int) with
+  | .error _ => .error .coin
+  | .ok (share, _) =>
+    match Coin.minusCoin amount share with
+    | .error _ => .error .coin
+    | .ok paid =>
+      match (sortIds (sigs.map (·.id)))[pick sigs.length]? with
+      | none => .error .pickRange                 -- Go: index out of range (cannot happen for `Intn`)
+      | some none => .error .noPool               -- the stake pool of the id "" does not exist
+      | some (some k) =>
+        match aGet s.pools k with
+        | none => .error .noPool
+        | some ap =>
+          match StakePool.distributeRewards ap.sp share with
+          | .error _ => .error .reward
+          | .ok (sp', _) => .ok { share := share, paid := paid, rewarded := k, pools := aSet s.pools k { ap with sp := sp' } }
 
 /-- `(*ZCNSmartContract).mint`. `h` is the message point of `p` (`Hm(GetStringToSign())`),
 `pick n` is `rand.New(rand.NewSource(seed)).Intn(n)`. -/
@@ -241,43 +294,22 @@ def mint (strict : Bool) (s : ZSt) (sender : Id) (p : Option MintIn) (h : Fr) (p
   match p with
   | none => .error .decode
   | some p =>
-    if p.sigs.isEmpty then .error .noSigs
-    else if s.count = 0 then .error .noAuth
-    else match threshold s.cfg.percent s.count with
-    | none => .error .undefThreshold
-    | some thr =>
-      if (p.sigs.length : Int) < thr then .error .fewSigs
-      else
-        -- `payload.Signatures[0:numAuth]`
-        let sigs := if (p.sigs.length : Int) > s.count then p.sigs.take s.count.toNat else p.sigs
-        if p.receiver ≠ sender then .error .receiver
-        else if p.amount < s.cfg.minMint then .error .minMint
-        else if p.amount < s.cfg.maxFee then .error .maxFee
-        else if p.nonce ∈ s.minted then .error .nonceExists
-        else
-          let uniq := uniqueSigs sigs
-          if !verifySignatures strict s.auths h uniq then .error .verify
-          else if (uniq.length : Int) < thr then .error .notEnough
-          else match Coin.distributeCoin s.cfg.maxFee (sigs.length : Int) with
-          | .error _ => .error .coin
-          | .ok (share, _) =>
-            match Coin.minusCoin p.amount share with
-            | .error _ => .error .coin
-            | .ok paid =>
-              let sorted := sortIds (sigs.map (·.id))
-              match sorted[pick sigs.length]? with
-              | none => .error .pickRange                 -- Go: index out of range (cannot happen for `Intn`)
-              | some none => .error .noPool               -- stake pool of the id "" does not exist
-              | some (some k) =>
-                match aGet s.pools k with
-                | none => .error .noPool
-                | some ap =>
-                  match StakePool.distributeRewards ap.sp share with
-                  | .error _ => .error .reward
-                  | .ok (sp', _) =>
-                    .ok { st := { s with minted := p.nonce :: s.minted, pools := aSet s.pools k { ap with sp := sp' } }
-                          transfer := ⟨zcnSC, sender, paid⟩
-                          share := share, paid := paid, rewarded := k, counted := uniq, threshold := thr }
+    match mintSigs s p with
+    | .error e => .error e
+    | .ok (thr, sigs) =>
+      match mintChecks s sender p with
+      | .error e => .error e
+      | .ok () =>
+        match mintVerify strict s h thr sigs with
+        | .error e => .error e
+        | .ok uniq =>
+          match mintPay s p.amount sigs pick with
+          | .error e => .error e
+          | .ok po =>
+            .ok { st := { s with minted := p.nonce :: s.minted, pools := po.pools }
+                  transfer := ⟨zcnSC, sender, po.paid⟩
+                  share := po.share, paid := po.paid, rewarded := po.rewarded
+                  sigs := sigs, counted := uniq, threshold := thr }
 
 def mintStep (strict feeOn : Bool) (s : ZSt) (c : Call) (p : Option MintIn) (h : Fr) (pick : Nat → Nat) : ZSt × Status :=
   settleCall feeOn s c
@@ -303,6 +335,10 @@ deriving DecidableEq, Repr
 def settingsOk (cfg : Cfg) (a : AddIn) : Bool :=
   !(F64.lt a.ratio F64.zero) && decide (0 < a.maxDel) && decide (a.maxDel ≤ cfg.maxDelegates)
 
+/-- `getOrUpdateStakePool`: does the request change an existing pool's settings? -/
+def poolChanged (cfg : Cfg) (ap : APool) (a : AddIn) : Bool :=
+  !(F64.eq ap.sp.ratio a.ratio) || decide (ap.maxDel ≠ a.maxDel) || decide (ap.sp.minStake ≠ cfg.minStakePerDelegate)
+
 /-- `AddAuthorizer` (the checks that can fire with a decodable key; the delegate wallet is a client id,
 never the key's own id). -/
 def addAuth (s : ZSt) (sender : Id) (a : Option AddIn) : Except AuthErr ZSt :=
@@ -319,17 +355,17 @@ def addAuth (s : ZSt) (sender : Id) (a : Option AddIn) : Except AuthErr ZSt :=
         -- `getOrUpdateStakePool`
         match aGet s.pools a.key with
         | none =>
-          let sp : StakePool.SP := { pools := [], reward := 0, minStake := s.cfg.minStakePerDelegate, ratio := a.ratio, killed := false }
           .ok { s with auths := aSet s.auths a.key a.pk, count := s.count + 1,
-                       pools := aSet s.pools a.key { sp := sp, wallet := wallet, maxDel := a.maxDel } }
+                       pools := aSet s.pools a.key
+                         { sp := { pools := [], reward := 0, minStake := s.cfg.minStakePerDelegate, ratio := a.ratio, killed := false },
+                           wallet := wallet, maxDel := a.maxDel } }
         | some ap =>
-          let changed := !(F64.eq ap.sp.ratio a.ratio) || decide (ap.maxDel ≠ a.maxDel) ||
-                         decide (ap.sp.minStake ≠ s.cfg.minStakePerDelegate)
-          if !changed then .error .noChange
+          if !poolChanged s.cfg ap a then .error .noChange
           else
-            let sp := { ap.sp with ratio := a.ratio, minStake := s.cfg.minStakePerDelegate }
             .ok { s with auths := aSet s.auths a.key a.pk, count := s.count + 1,
-                         pools := aSet s.pools a.key { ap with sp := sp, maxDel := a.maxDel } }
+                         pools := aSet s.pools a.key
+                           { ap with sp := { ap.sp with ratio := a.ratio, minStake := s.cfg.minStakePerDelegate },
+                                     maxDel := a.maxDel } }
 
 /-- `DeleteAuthorizer` (the delegate pools' `Status` field is not part of `StakePool.SP`). -/
 def delAuth (s : ZSt) (sender : Id) (k : Option Nat) : Except AuthErr ZSt :=
